@@ -38,6 +38,10 @@ A_PAIRS = [(0.03, 0.0125), (0.0125, 0.03), (0.005, 0.05), (0.02, 0.02), (0.002, 
 NS_N = [complex(2.0, 0.0), complex(1.5, 3.0), complex(0.7, -12.0), complex(4.2, 40.0), complex(25.0, 0.5)]
 
 
+# Re N < 0 and small |N|: the reflection / upward-recursion branches of the polygamma functions
+POLYGAMMA_N = [complex(-0.5, 2.0), complex(0.3, 0.1)]
+
+
 def _methods():
     from eko.kernels import EvoMethods
 
@@ -171,7 +175,8 @@ def unit_interpolation_mellin():
             disp = interpolation.InterpolatorDispatcher(interpolation.XGrid(xg, log=log), deg, mode_N=mode_N)
             for j, bf in enumerate(disp):
                 if mode_N:
-                    for lx in (np.log(xg[1]), np.log(xg[-2]), np.log(0.5 * (xg[2] + xg[3]))):
+                    # interior nodes / between nodes, and both ends of the grid (lower edge, x = 1: the guards of the areas)
+                    for lx in (np.log(xg[1]), np.log(xg[-2]), np.log(0.5 * (xg[2] + xg[3])), np.log(xg[0]), 0.0):
                         # the domain of the N-space basis: the moments the solver's contours visit at this x
                         for N in [complex(mellin.Path(u, float(lx), sing).n) for u in (0.5, 0.75, 0.95) for sing in (True, False)]:
                             out.append((f"interp.N/log={log}/deg={deg}/j={j}/{N}/{lx:.4f}", bf(N, float(lx))))
@@ -184,6 +189,12 @@ def unit_interpolation_mellin():
             for sing in (True, False):
                 p = mellin.Path(u, float(lx), sing)
                 out += [(f"mellin.n/{u}/{lx:.3f}/{sing}", p.n), (f"mellin.jac/{u}/{lx:.3f}/{sing}", p.jac), (f"mellin.prefactor/{u}/{lx:.3f}/{sing}", p.prefactor)]
+    # the other compiled contours of eko/mellin.py (not used by Path, but compiled functions of an anchored file)
+    for t in (0.0, 0.3, 0.5, 0.9):
+        for mx, c in ((10.0, 1.0), (30.0, 1.5)):
+            out += [(f"mellin.line_path/{t}/{mx}/{c}", mellin.line_path(t, mx, c)), (f"mellin.line_jac/{t}/{mx}/{c}", mellin.line_jac(t, mx, c))]
+            for phi in (np.pi * 2.0 / 3.0, np.pi * 3.0 / 4.0):
+                out += [(f"mellin.edge_path/{t}/{mx}/{c}/{phi:.3f}", mellin.edge_path(t, mx, c, phi)), (f"mellin.edge_jac/{t}/{mx}/{c}/{phi:.3f}", mellin.edge_jac(t, mx, c, phi))]
     return out
 
 
@@ -244,7 +255,7 @@ def unit_harmonics_cache():
 
     out = []
     nkeys = len(c.reset())
-    for N in NS_N + [complex(1.0, 0.0), complex(6.0, 0.0), complex(7.0, 0.0)]:
+    for N in NS_N + [complex(1.0, 0.0), complex(6.0, 0.0), complex(7.0, 0.0)] + POLYGAMMA_N:
         for flag in (True, False):
             cache = c.reset()
             for key in range(nkeys):
@@ -294,6 +305,33 @@ def unit_ad_as1_as2():
             out.append((f"as2.gamma_nsm/{N}/nf={nf}", as2.gamma_nsm(N, nf, c.reset())))
             out.append((f"as2.gamma_nsp/{N}/nf={nf}", as2.gamma_nsp(N, nf, c.reset())))
             out.append((f"as2.gamma_singlet/{N}/nf={nf}", as2.gamma_singlet(N, nf, c.reset())))
+            # the QED-basis entry points of the same files (4x4 singlet, 2x2 valence)
+            out.append((f"as1.gamma_singlet_qed/{N}/nf={nf}", as1.gamma_singlet_qed(N, c.reset(), nf)))
+            out.append((f"as1.gamma_valence_qed/{N}", as1.gamma_valence_qed(N, c.reset())))
+            out.append((f"as2.gamma_singlet_qed/{N}/nf={nf}", as2.gamma_singlet_qed(N, nf, c.reset())))
+            out.append((f"as2.gamma_valence_qed/{N}/nf={nf}", as2.gamma_valence_qed(N, nf, c.reset())))
+    return out
+
+
+NS_QED_MODES = (10102, 10103, 10202, 10203)
+
+
+def unit_ad_qed_choose():
+    """The charge-weighted non-singlet selectors of the QED dispatch (aem1, as1aem1, aem2) and what only they reach."""
+    from eko import constants
+    from ekore.harmonics import cache as c
+    import ekore.anomalous_dimensions.unpolarized.space_like as ad_us
+
+    out = []
+    for nf in (3, 4, 5, 6):
+        out.append((f"constants.uplike_flavors/nf={nf}", constants.uplike_flavors(nf)))
+        out.append((f"constants.charge_combinations/nf={nf}", np.array(constants.charge_combinations(nf))))
+    for N in NS_N:
+        for mode in NS_QED_MODES:
+            out.append((f"choose_ns_ad_aem1/{mode}/{N}", ad_us.choose_ns_ad_aem1(mode, N, c.reset())))
+            out.append((f"choose_ns_ad_as1aem1/{mode}/{N}", ad_us.choose_ns_ad_as1aem1(mode, N, c.reset())))
+            for nf in (3, 5):
+                out.append((f"choose_ns_ad_aem2/{mode}/{N}/nf={nf}", ad_us.choose_ns_ad_aem2(mode, N, nf, c.reset())))
     return out
 
 
@@ -328,6 +366,17 @@ def unit_exp_matrix_build_ome():
         m = _qed_gamma_mat(o1, o2, 4)[1, 0] * 0.03
         e, w, P = ad.exp_matrix(m)
         out += [("exp_matrix/exp", e), ("exp_matrix/w_sorted", np.sort_complex(np.array(w)))]
+    # the element selectors of the integration kernel: every legal (mode0, mode1) pair
+    k2, k4 = _qed_gamma_mat(1, 1, 2)[1, 0], _qed_gamma_mat(1, 1, 4)[1, 1]
+    for m0 in (100, 21):
+        for m1 in (100, 21):
+            out.append((f"select_singlet_element/{m0},{m1}", qk.select_singlet_element(k2, m0, m1)))
+    for m0 in (21, 22, 100, 101):
+        for m1 in (21, 22, 100, 101):
+            out.append((f"select_QEDsinglet_element/{m0},{m1}", qk.select_QEDsinglet_element(k4, m0, m1)))
+    for m0 in (10200, 10204):
+        for m1 in (10200, 10204):
+            out.append((f"select_QEDvalence_element/{m0},{m1}", qk.select_QEDvalence_element(k2, m0, m1)))
     A = np.array([_qed_gamma_mat(1, 1, 3)[1, 0], _qed_gamma_mat(2, 1, 3)[2, 0], _qed_gamma_mat(3, 1, 3)[3, 0]]) * 0.1
     for mo in (0, 1, 2, 3):
         for method in qk.MatchingMethods:
@@ -375,12 +424,50 @@ def unit_quad_ker_qcd():
     return out
 
 
+def unit_quad_ker_qed():
+    """The QED branch of the integration kernel and the QED anomalous-dimension dispatchers (thorough)."""
+    import eko.evolution_operator  # noqa
+    import ekore.anomalous_dimensions.unpolarized.space_like as ad_us
+    from eko.kernels import EvoMethods
+    from eko.scale_variations import Modes
+
+    qk = sys.modules["eko.evolution_operator.quad_ker"]
+
+    xg, areas = _quad_lattice()
+    out = []
+    var = (0, 0, 0, 0, 0, 0, 0)
+    for order in ((1, 1), (1, 2), (2, 1), (3, 2)):
+        for N in NS_N[:3]:
+            for nf in (3, 5):
+                for mode in NS_QED_MODES:
+                    out.append((f"gamma_ns_qed/o={order}/{mode}/{N}/nf={nf}", ad_us.gamma_ns_qed(order, mode, N, nf, var, True)))
+                out.append((f"gamma_singlet_qed/o={order}/{N}/nf={nf}", ad_us.gamma_singlet_qed(order, N, nf, var, True)))
+                out.append((f"gamma_valence_qed/o={order}/{N}/nf={nf}", ad_us.gamma_valence_qed(order, N, nf, var, True)))
+    its = 2
+    as_list = np.geomspace(0.03, 0.0125, its + 1)
+    a_half = np.array([[0.5 * (as_list[i] + as_list[i + 1]), 6e-4 * (1 + 0.01 * i)] for i in range(its)])
+    for order in ((1, 1), (2, 1), (2, 2)):
+        for (mode0, mode1) in ((100, 100), (101, 22), (21, 101), (22, 21), (10102, 0), (10203, 0), (10200, 10200), (10204, 10200), (10200, 10204)):
+            for svm in (Modes.unvaried, Modes.expanded, Modes.exponentiated):
+                for running in (False, True):
+                    for thr in (False, True):
+                        if thr and svm != Modes.expanded:
+                            continue  # is_threshold only matters for the expanded variation
+                        for u in (0.5, 0.8):
+                            v = qk.quad_ker_ad(
+                                u, order, mode0, mode1, EvoMethods.ITERATE_EXACT, True, float(np.log(xg[1])), areas[1], as_list, 10.0, 100.0, a_half,
+                                running, 4, 0.3, its, (3, 0), svm, thr, var, False, False, True,
+                            )
+                            out.append((f"quad_ker_ad.qed/o={order}/{mode0},{mode1}/{svm.name}/run={running}/thr={thr}/u={u}", v))
+    return out
+
+
 QUICK_UNITS = [
     "ns_kernels", "singlet_kernels_a", "singlet_kernels_b", "singlet_kernels_c", "evolution_integrals", "qed_kernels",
     "interpolation_mellin", "scale_variations", "couplings", "harmonics_cache", "harmonics_functions", "ad_as1_as2",
-    "ome_as1_as2", "exp_matrix_build_ome",
+    "ome_as1_as2", "exp_matrix_build_ome", "ad_qed_choose",
 ]
-THOROUGH_UNITS = QUICK_UNITS + ["quad_ker_qcd"]
+THOROUGH_UNITS = QUICK_UNITS + ["quad_ker_qcd", "quad_ker_qed"]
 
 
 def _enc(v):
